@@ -136,13 +136,24 @@ func (m c16) Run(ctx *core.Ctx) {
 			cs.Config = append([]string{"special:gopher"}, subsetWithout(r, "special")...)
 		case "set":
 			name := gen.Pick(r, []string{"pathset", "queryset", "squeryset", "fragset", "sfragset"})
-			cs.Config = []string{name + ":" + gen.Pick(r, []string{"lax", "c0", "pct", "tilde"})}
+			cs.Config = []string{name + ":" + gen.Pick(r, []string{"lax", "c0", "pct", "tilde", "delims"})}
 			if r.IntN(2) == 0 {
 				// enrich with the characters in which the sets differ
-				extra := gen.Pick(r, []string{"~", "x", "%", "%41", "%zz", "\"", "'", "/", ";", "?", "{", "}", "<", ">", "`", " ", "#", "."})
+				extra := gen.Pick(r, []string{"~", "x", "%", "%41", "%zz", "\"", "'", "/", ";", "?", "{", "}", "<", ">", "`", " ", "#", ".",
+					":", "|", "C:", "c|", "@", "=", "&", "+", "!", "$", "*", "..", "%2e", "a.b"})
 				in := string(cs.Input)
 				p := r.IntN(len(in) + 1)
 				cs.Input = core.S(in[:p] + extra + in[p:])
+			}
+			if strings.HasSuffix(cs.Config[0], ":delims") && r.IntN(3) == 0 {
+				// drive letters and dot segments when ':' '|' '.' are in the replaced set
+				cs.Input = core.S(gen.Pick(r, []string{"file:///C:/x", "file:///c:foo/bar", "file:///a|b", "file:///C|/x/../y", "file://h/C:/x", "file:C:/x", "file:/c|", "http://h/a.b/./c/../d", "http://h/C:/x", "a://h/c:/.."}) +
+					gen.Pick(r, []string{"", "?a=b&c", "#f.g", "?x:y|z"}))
+				cs.HasBase = r.IntN(3) == 0
+				if cs.HasBase {
+					cs.Base = core.S(gen.Pick(r, []string{"file:///D:/p/q", "file:///d|/p", "http://h/x.y/z"}))
+					cs.Input = core.S(gen.Pick(r, []string{"C:/x", "c|/y", "/C:/z", "../E:", "a.b", "./c:d", "c:foo"}))
+				}
 			}
 		case "special-scheme":
 			cs.Config = []string{gen.Pick(r, []string{"special:gopher", "special:foo8080", "special:barnoport"})}
@@ -290,6 +301,8 @@ func modelSetFor(arg string, which string) refmodel.Set {
 		return func(r rune) bool { return refmodel.PathSet(r) || r == '%' }
 	case "tilde":
 		return func(r rune) bool { return refmodel.QuerySet(r) || r == '~' || r == 'x' }
+	case "delims":
+		return func(r rune) bool { return refmodel.PathSet(r) || strings.ContainsRune(":|.@=&+;!$'*", r) }
 	}
 	return refmodel.PathSet
 }
